@@ -417,28 +417,40 @@ impl Lowerer {
                     })
                     .try_collect()?;
 
+                // the cells first: a cell that is not a literal is the more
+                // specific complaint (a bare name as a cell also loses its alias)
+                let rows = elements
+                    .into_iter()
+                    .map(|row| {
+                        row.kind
+                            .into_tuple()
+                            .unwrap()
+                            .into_iter()
+                            .map(|element| {
+                                element.try_cast(
+                                    |x| x.into_literal(),
+                                    Some("relation literal"),
+                                    "literals",
+                                )
+                            })
+                            .try_collect()
+                    })
+                    .try_collect()?;
+
                 let lit = RelationLiteral {
                     columns: columns
                         .iter()
-                        .map(|c| c.as_single().unwrap().clone().unwrap())
-                        .collect_vec(),
-                    rows: elements
-                        .into_iter()
-                        .map(|row| {
-                            row.kind
-                                .into_tuple()
-                                .unwrap()
-                                .into_iter()
-                                .map(|element| {
-                                    element.try_cast(
-                                        |x| x.into_literal(),
-                                        Some("relation literal"),
-                                        "literals",
-                                    )
-                                })
-                                .try_collect()
+                        .map(|c| {
+                            c.as_single().and_then(|name| name.clone()).ok_or_else(|| {
+                                Error::new_simple(
+                                    "every column of a relation literal needs a name",
+                                )
+                                .push_hint("name the fields of the first tuple: `[{a = 1, b = 2}]`")
+                                .with_span(expr.span)
+                            })
                         })
                         .try_collect()?,
+                    rows,
                 };
 
                 log::debug!("lowering literal relation table, columns = {columns:?}");
